@@ -53,6 +53,21 @@ theorem enum_starts_one : ∀ e ∈ S2T.Gen.Units.enumStarts, e.2 = 1 := by deci
 /-- runtime values agree with the source literals; str.isspace / strip / split agree on the whitespace set -/
 theorem gen_notes_empty : S2T.Gen.Units.notes = [] := by decide
 
+/-- the order-affecting calls (sorted / reversed / .sort / set / dict re-keying / unordered executors …) that the
+model accounts for inside the functions that build the unit sequence (`_compute_slide_order`, `read_pptx`, the PPT
+slide-list functions, `_parse_spine`, `read_epub`, `_split_mbox_messages`, `read_mbox_format_mail`,
+`_strip_rtf_full_with_pages`, `read_odp`, `read_ods`, `read_xlsx`, every `iterate_units`): image / table look-ups
+(`reversed(units)` searches the last level-1 unit for an attachment, `set`/`setdefault` index anchors and notes) —
+none of them touches the sequence of units -/
+def allowedReorderCalls : List (String × String) :=
+  [("DocContent.iterate_units", "reversed"), ("OdtContent.iterate_units", "reversed"),
+   ("DocxContent.iterate_units", "set"), ("DocxContent.iterate_units", "setdefault"), ("_parse_ppt_document", "set")]
+
+/-- closed world: no other call that can change or lose an order occurs in those functions of the current source —
+the slide / chapter / page / message / sheet order of the model (`slideOrder`, `epubSpine`, `rtfPieces`, `mboxGo`,
+`enumUnits`) is the document order because nothing re-sorts, de-duplicates or re-keys the sequence -/
+theorem unit_builders_do_not_reorder : ∀ c ∈ S2T.Gen.Units.reorderCalls, c ∈ allowedReorderCalls := by decide
+
 /-! ## B. Unit numbers: 1-based source position, strictly increasing, never repeated -/
 
 theorem numbers_pdf (ps : List Page) :
@@ -547,5 +562,103 @@ theorem mbox_messages_nonempty (data : Str) : ∀ m ∈ mboxSplit data, m ≠ []
 
 example : mboxSplit "From a@b Mon Jan 1 2024\nS: 1\n\nx\n\nFrom c@d Tue Jan 2 2024\nS: 2\n\ny\n".toList
     = ["S: 1\n\nx".toList, "S: 2\n\ny".toList] := by decide
+
+/-! ## G. Source order on the extraction side (PPTX / ODP slides, RTF pages)
+
+`numbers_pptx` fixes the *numbers*; the theorems here fix *which* slide / page stands at each number. -/
+
+/-- PPTX: the show order is exactly the document order of the `p:sldId` entries whose `r:id` resolves to a slide
+relationship — one path per such entry, nothing else decides the order -/
+theorem slide_order_is_document_order (rels : List Rel) (es : List SldId) :
+    slideOrderE rels es = es.filterMap (fun e => sldResolve rels e.rid) := by
+  unfold slideOrderE
+  rw [slideOrder_eq_filterMap, List.filterMap_map]
+  rfl
+
+/-- … in particular it is a homomorphism of the entry list: entries listed later come later (a deck whose last
+slide was dragged to the front, or with a slide inserted in the middle, is read in *that* order) -/
+theorem slide_order_append (rels : List Rel) (a b : List SldId) :
+    slideOrderE rels (a ++ b) = slideOrderE rels a ++ slideOrderE rels b := by
+  simp [slide_order_is_document_order]
+
+/-- … and the numeric `id` attributes (slide-creation ids, not ascending once slides were moved or inserted,
+possibly missing / non-numeric / repeated) have no influence at all -/
+theorem slide_order_ignores_numeric_ids (rels : List Rel) (es es' : List SldId)
+    (h : es.map (·.rid) = es'.map (·.rid)) : slideOrderE rels es = slideOrderE rels es' := by
+  unfold slideOrderE; rw [h]
+
+/-- PPTX: unit k is made from the k-th path of the slide order (text, images … come from `mk` of *that* part) -/
+theorem mirror_pptx (T : Tables) (mk : Str → PptxSlide) (order : List Str) (cap : Bool) (i : Nat) (h : i < order.length) :
+    (pptxUnits T (pptxExtract mk order) cap)[i]? =
+      some { number := 1 + i, text := strip T (pptxSlideText { mk order[i] with number := 1 + i } cap),
+             nImages := (mk order[i]).imageDescs.length } := by
+  unfold pptxUnits pptxExtract
+  rw [List.map_map, List.getElem?_map,
+      enumUnits_get (fun k (p : Str) => ({ number := k, text := p } : DUnit)) 1 order i h]
+  rfl
+
+/-- ODP: unit k is made from the k-th `draw:page` -/
+theorem mirror_odp (mk : Str → PptSlide) (pages : List Str) (i : Nat) (h : i < pages.length) :
+    ((odpExtract mk pages)[i]?).map (·.number) = some (1 + i)
+    ∧ (odpExtract mk pages)[i]? = some { mk pages[i] with number := 1 + i } := by
+  unfold odpExtract
+  rw [List.getElem?_map, enumUnits_get (fun k (p : Str) => ({ number := k, text := p } : DUnit)) 1 pages i h]
+  exact ⟨rfl, rfl⟩
+
+example : slideOrderE [⟨"rId7".toList, "slides/slide1.xml".toList, "x/slide".toList⟩, ⟨"rId8".toList, "slides/slide2.xml".toList, "x/slide".toList⟩]
+      [⟨some "258".toList, some "rId8".toList⟩, ⟨some "256".toList, some "rId7".toList⟩, ⟨none, some "nope".toList⟩]
+    = ["ppt/slides/slide2.xml".toList, "ppt/slides/slide1.xml".toList] := by decide
+
+/-! ### RTF: page buffers, surrogate pairs and explicit breaks (`_strip_rtf_full_with_pages`)
+
+The scanner appends UTF-16 code units (`\uN` twice for a character beyond U+FFFF); pairs are combined per page
+buffer.  Every offset the code keeps is an offset into a buffer of its own page, so no character can move
+across a break. -/
+
+/-- k explicit breaks cut the body into k + 1 page buffers -/
+theorem rtf_piece_count (evs : List RtfEv) : (rtfPieces evs).length = rtfBreaks evs + 1 :=
+  rtfPiecesAux_length evs []
+
+/-- with at least one explicit break every buffer is a page: pages = breaks + 1, blank ones included -/
+theorem rtf_page_count (T : Tables) (evs : List RtfEv) (h : 1 ≤ rtfBreaks evs) :
+    (rtfExtractPages T evs).length = rtfBreaks evs + 1 := by
+  unfold rtfExtractPages
+  rw [count_rtf_flush T _ (by rw [List.length_map, rtf_piece_count]; omega), List.length_map, rtf_piece_count]
+
+/-- page k is a function of the characters between break k-1 and break k alone (combined, trimmed, blank runs
+collapsed): text before a break never shows up after it and vice versa -/
+theorem rtf_page_local (T : Tables) (evs : List RtfEv) (h : 1 ≤ rtfBreaks evs) (k : Nat) (hk : k < (rtfPieces evs).length) :
+    (rtfExtractPages T evs)[k]? = some (rtfPageText T (codesToStr (combineSur (rtfPieces evs)[k]))) := by
+  unfold rtfExtractPages
+  have hl : 2 ≤ ((rtfPieces evs).map (fun p => codesToStr (combineSur p))).length := by
+    rw [List.length_map, rtf_piece_count]; omega
+  match hm : (rtfPieces evs).map (fun p => codesToStr (combineSur p)), hl with
+  | p :: q :: r, _ =>
+    simp only [rtfFlushPages]
+    rw [← hm, List.map_map, List.getElem?_map, List.getElem?_eq_getElem hk]
+    rfl
+
+/-- the pages partition the body: when no buffer ends in the first half of a pair (no character is cut in two by
+a break), concatenating the combined buffers gives exactly the combined body text that the function returns —
+every character is in one page and in no other, whatever the number of characters beyond U+FFFF before a break -/
+theorem rtf_pages_partition (evs : List RtfEv) (h : ∀ p ∈ rtfPieces evs, endsHigh p = false) :
+    ((rtfPieces evs).map combineSur).flatten = rtfExtractText evs := by
+  rw [combineSur_flatten _ h]
+  unfold rtfExtractText rtfPieces
+  rw [rtfPiecesAux_flatten]
+  rfl
+
+/-- combining leaves no surrogate in any page ("the text stays encodable") -/
+theorem rtf_pages_encodable (evs : List RtfEv) : ∀ p ∈ rtfPieces evs, ∀ x ∈ combineSur p, isSur x = false :=
+  fun p _ => combineSur_no_sur p
+
+/-- a body without surrogate code units is cut as it stands -/
+theorem rtf_bmp_unchanged (l : List Nat) (h : ∀ x ∈ l, isSur x = false) : combineSur l = l := combineSur_id l h
+
+/-- "😀 " on page 1 (two `\uN`), "b" on page 2: the page boundary does not shift -/
+example : rtfExtractPages G [.ch 0xD83D, .ch 0xDE00, .ch 97, .brk, .ch 98, .ch 99]
+    = [[Char.ofNat 0x1F600, 'a'], ['b', 'c']] := by decide
+example : (∀ p ∈ rtfPieces [.ch 0xD83D, .ch 0xDE00, .ch 97, .brk, .ch 98, .ch 99], endsHigh p = false)
+    ∧ 1 ≤ rtfBreaks [.ch 0xD83D, .ch 0xDE00, .ch 97, .brk, .ch 98, .ch 99] := by decide
 
 end S2T.C03
